@@ -202,5 +202,5 @@ pub fn canary_b11(b: PackageBuilder, records: Vec<IndexEntry<IndexTag>>, size_en
 '''),
 ] + TAIL
 
-OBLIGATIONS = {'PackageBuilder::b10_file_arrays': ['C06'], 'lemma_strs_push': ['C06'], 'PackageBuilder::b11_file_records': ['C06'], 'PackageBuilder::b8_build_host': ['C06']}
+OBLIGATIONS = {'PackageBuilder::b10_file_arrays': ['C06', 'C08'], 'lemma_strs_push': ['C06'], 'PackageBuilder::b11_file_records': ['C06', 'C08'], 'PackageBuilder::b8_build_host': ['C06']}
 CANARIES = ['canary_b10', 'canary_b11']
